@@ -164,3 +164,91 @@ Definition wf_op (o : op) : Prop :=
   | TrySend _ pkts => Forall (fun p => 0 <= snd (fst p)) pkts
   | _ => True
   end.
+
+(** * Closing the connection (connection.go handleCloseError, closed_conn.go closedLocalConn,
+      transport.go packetHandlerMap.ReplaceWithClosed) — as repaired by fixes/C14-close-ungated.patch.
+
+    A local close (application close, CONNECTION_REFUSED, transport error) packs ONE datagram
+    with the CONNECTION_CLOSE and writes it to the socket without going through SentPacket.
+    A server whose handshake is not complete, that has sent something and whose SendMode is
+    SendNone (amplification limit used up) stays silent and installs a handler that ignores
+    packets (ReplaceWithClosed(nil)); otherwise the datagram is written once and a
+    closedLocalConn keeps it: for the 1st, 2nd, 4th, 8th ... datagram arriving afterwards it
+    sends the datagram again, provided that what it sent stays within three times what it
+    received (its own counters; the connection's state is gone). *)
+Record cstate := CS {
+  sph : st;                 (* the connection's sentPacketHandler (frozen once closed) *)
+  closedPkt : option Z;     (* None: open.  Some 0: closed, packets ignored.  Some n: closedLocalConn holding an n-byte datagram *)
+  closeSent : Z;            (* bytes written by sendConnectionClose *)
+  cRcvd : Z; cSent : Z;     (* closedLocalConn.bytesReceived / bytesSent *)
+  cCount : Z                (* closedLocalConn.counter *)
+}.
+
+Definition cinit (clientAddressValidated : bool) (pto : Z) : cstate :=
+  CS (init clientAddressValidated pto) None 0 0 0 0.
+
+Inductive cop :=
+| SphOp (o : op)                       (* anything that happens to the open connection's handler *)
+| Close (handshakeComplete : bool) (size : Z)
+| ClosedRecv (n : Z).
+
+(** bits.OnesCount32(n) == 1 *)
+Definition is_pow2 (n : Z) : bool := (0 <? n) && (Z.land n (n - 1) =? 0).
+
+(** handleCloseError's decision for a server *)
+Definition close_suppressed (s : st) (handshakeComplete : bool) : bool :=
+  negb handshakeComplete && (0 <? bytesSent s) && (sendMode s =? amp_SendNone).
+
+Definition cstep (c : cstate) (o : cop) : cstate :=
+  match o with
+  | SphOp o =>
+    match closedPkt c with
+    | None => CS (step (sph c) o) None (closeSent c) (cRcvd c) (cSent c) (cCount c)
+    | Some _ => c
+    end
+  | Close hc size =>
+    match closedPkt c with
+    | None =>
+      if close_suppressed (sph c) hc then CS (sph c) (Some 0) 0 0 0 0
+      else CS (sph c) (Some size) size 0 0 0
+    | Some _ => c
+    end
+  | ClosedRecv n =>
+    match closedPkt c with
+    | Some p =>
+      if 0 <? p then
+        let cnt := cCount c + 1 in
+        let rcvd := cRcvd c + n in
+        if is_pow2 cnt && (cSent c + p <=? 3 * rcvd)
+        then CS (sph c) (Some p) (closeSent c) rcvd (cSent c + p) cnt
+        else CS (sph c) (Some p) (closeSent c) rcvd (cSent c) cnt
+      else c
+    | None => c
+    end
+  end.
+
+Definition crun (c : cstate) (ops : list cop) : cstate := fold_left cstep ops c.
+
+(** everything the server put on the wire towards the client / everything that reached it *)
+Definition wireSent (c : cstate) : Z := bytesSent (sph c) + closeSent c + cSent c.
+Definition wireRcvd (c : cstate) : Z := bytesReceived (sph c) + cRcvd c.
+
+(** ghost: the last datagram that was let through while the connection's own gate (SendMode,
+    or the close decision) was consulted *)
+Definition cstep_g (cl : cstate * Z) (o : cop) : cstate * Z :=
+  let '(c, last) := cl in
+  (cstep c o,
+   match o, closedPkt c with
+   | SphOp o, None => snd (step_g (sph c, last) o)
+   | Close hc size, None => if close_suppressed (sph c) hc then last else size
+   | _, _ => last
+   end).
+
+Definition crun_g (cl : cstate * Z) (ops : list cop) : cstate * Z := fold_left cstep_g ops cl.
+
+Definition wf_cop (o : cop) : Prop :=
+  match o with
+  | SphOp o => wf_op o
+  | Close hc size => hc = false /\ 0 <= size   (* the handshake of a server completes only after validation *)
+  | ClosedRecv n => 0 <= n
+  end.
